@@ -238,8 +238,13 @@ def decVLUpdate (c : CodecCfg) : P EditBody :=
     let b ← optByte 0
     pure (.vl (some ⟨bucket % two32, fid % two32, offset, b == 1⟩))) (pure (.vl none))
 
+/-- `if pos < len(data)` (current) or `if pos <= len(data)` (before 9ece5dd) in front of the
+raft-pointer and region arms -/
+def ifPayload {α : Type} (c : CodecCfg) (A B : P α) : P α :=
+  if c.manNilPayloadLt then ifMore A B else ifWithin A B
+
 def decRaft (c : CodecCfg) : P EditBody :=
-  ifWithin (do
+  ifPayload c (do
     let g ← manUv c
     let seg ← manUv c
     let off ← manUv c
@@ -288,7 +293,7 @@ def decRegionRest (c : CodecCfg) (id : Nat) : P EditBody := do
   pure (.region (some ⟨id, false, start, end_, ver, confVer, state, peers⟩))
 
 def decRegion (c : CodecCfg) : P EditBody :=
-  ifWithin (do
+  ifPayload c (do
     let id ← manUv c
     chkPos
     let del ← optByte 0
